@@ -12,6 +12,7 @@ import (
 
 	"github.com/tdewolff/canvas"
 	"github.com/tdewolff/canvas/renderers/rasterizer"
+	"github.com/tdewolff/canvas/text"
 	"github.com/tdewolff/font"
 
 	"verif/internal/cv"
@@ -126,6 +127,18 @@ func textDumpGlyphs(t *canvas.Text) string {
 }
 
 // Bodies is the menu; the first PoolUsers entries use the sweep-line pools.
+// shapeDump: the shaped glyphs and widths of two strings for one face.
+func shapeDump(f *canvas.FontFace) string {
+	s := ""
+	for _, str := range []string{"fi Vav", "To"} {
+		for _, g := range f.Glyphs(str) {
+			s += fmt.Sprintf("[%d %d %d %d %d]", g.ID, g.XAdvance, g.YAdvance, g.XOffset, g.YOffset)
+		}
+		s += fmt.Sprintf("|%.9g;", f.TextWidth(str))
+	}
+	return s
+}
+
 var Bodies = []Body{
 	{Name: "And(triA,triB)", Run: func() string { return cv.Path(triA).And(cv.Path(triB)).String() }},
 	{Name: "Or(bowtie,triB)", Run: func() string { return cv.Path(bowtie).Or(cv.Path(triB)).String() }},
@@ -190,6 +203,25 @@ var Bodies = []Body{
 	{Name: "NewTextBox(shared font, same string, left, narrow)", Hist: true, Run: func() string {
 		loadFonts()
 		return textDumpGlyphs(canvas.NewTextBox(sharedFace, "fi Vav-e a­b", 9, 0, canvas.Left, canvas.Top, 0, 0))
+	}},
+	// faces that share the loaded font and differ in their shaping options (anything remembered per
+	// font must be keyed by language, script and direction too)
+	{Name: "shared font: Glyphs+TextWidth, default shaping options (same strings)", Hist: true, Run: func() string {
+		loadFonts()
+		f := *sharedFace
+		return shapeDump(&f)
+	}},
+	{Name: "shared font: Glyphs+TextWidth with Language=tr (same strings)", Hist: true, Run: func() string {
+		loadFonts()
+		f := *sharedFace
+		f.Language = "tr"
+		return shapeDump(&f)
+	}},
+	{Name: "shared font: Glyphs+TextWidth with Direction=RightToLeft (same strings)", Hist: true, Run: func() string {
+		loadFonts()
+		f := *sharedFace
+		f.Direction = text.RightToLeft
+		return shapeDump(&f)
 	}},
 	// faces of styles that the shared family has not loaded (the closest font plus faux styles)
 	{Name: "shared family: Face(FontBlack) + NewTextLine", Hist: true, Run: func() string {
